@@ -27,7 +27,7 @@ def run_impl(lines):
         f.write("\n".join(lines) + "\n")
     env = dict(os.environ, ASAN_OPTIONS="detect_leaks=0")
     try:
-        a = subprocess.run([HARNESS, path], stdout=subprocess.PIPE, stderr=subprocess.PIPE, text=True, timeout=20, env=env)
+        a = subprocess.run([HARNESS, path], stdout=subprocess.PIPE, stderr=subprocess.PIPE, text=True, timeout=75, env=env)
         return a.stdout, a.stderr, a.returncode
     except subprocess.TimeoutExpired as e:
         out = e.stdout.decode() if isinstance(e.stdout, bytes) else (e.stdout or "")
